@@ -7,6 +7,10 @@ From SK Require model.C06_Model model.C11_Model.
 From SK Require Import model.C03_Model model.C05_Model.
 Import ListNotations.
 
+Section WithThr.
+Context {TH : Thr}.
+
+
 (** ** the pipeline is a function *)
 Lemma pipeline_repeat inv imp ex s (h h' : hostg) (t t' : its) :
   h = h' -> t = t' -> pipeline inv imp ex s h t = pipeline inv imp ex s h' t'.
@@ -136,3 +140,5 @@ Section MonoEquiv.
     monos (map sg pn) (map pi hn) pl' hl' pe' he' nm em induced = map (mv sg pi) (monos pn hn pl hl pe he nm em induced).
   Proof. unfold monos. apply (extend_equiv pn []). Qed.
 End MonoEquiv.
+
+End WithThr.
